@@ -3,6 +3,9 @@ R: every corpus pipeline head -> tail is cut after the head with persist / to_de
 to_legacy+from_legacy (and their variants); result, schema and divisions must equal the uncut run."""
 from __future__ import annotations
 
+import os
+import shutil
+import tempfile
 import warnings
 
 import pandas as pd
@@ -11,12 +14,28 @@ from vf.rt import corpus as C
 from vf.rt import den as D
 from vf.rt.pool import bump, run_cases, viol
 
-HEADS = ["id", "f_gt", "proj5", "assign_z", "fillna_dict", "astype", "sort_u", "set_index_u", "reset_index", "repart2", "repart5", "cumsum", "shift", "dropna", "merge_df2", "concat_df3", "mp", "head_all", "parts1", "series_b", "index", "scalar_sum", "gb_frame", "clear_divisions", "shuffle_a"]
+HEADS = ["pq_proj", "pq_proj_abs", "pq_proj_known", "id", "f_gt", "proj5", "assign_z", "fillna_dict", "astype", "sort_u", "set_index_u", "reset_index", "repart2", "repart5", "cumsum", "shift", "dropna", "merge_df2", "concat_df3", "mp", "head_all", "parts1", "series_b", "index", "scalar_sum", "gb_frame", "clear_divisions", "shuffle_a"]
 TAILS = ["id", "f_and", "col_a_sum", "cols_ub", "gb", "sort_u", "set_index_u", "repart3", "head3", "tail2", "part0", "cumsum_u", "merge_df2", "add1", "count", "loc", "repartition_divs"]
 
 
-def head_fn(name, t):
+def _parquet_source(t, tmp, known):
+    """The corpus frame as a parquet dataset of 8 small files: a column-projected read of it is re-bucketed by the
+    optimizer (several files per output partition), so the optimized and the logical partitioning differ."""
+    import dask_expr as dx
+
+    pdf = t.df.compute() if hasattr(t.df, "compute") else t.df
+    pdf = pdf.sort_index()
+    cuts = [0, 1, 3, 4, 6, 7, 9, 10, len(pdf)]
+    for k, (a, b) in enumerate(zip(cuts, cuts[1:])):
+        pdf.iloc[a:b].to_parquet(os.path.join(tmp, f"part.{k}.parquet"))
+    return dx.read_parquet(tmp, calculate_divisions=known)
+
+
+def head_fn(name, t, tmp=None):
     x = t.df
+    if name.startswith("pq_"):
+        src = _parquet_source(t, tmp, name.endswith("known"))
+        return {"pq_proj": lambda: src[["u", "a", "b"]], "pq_proj_abs": lambda: src[["u", "a", "b"]].abs(), "pq_proj_known": lambda: src[["u", "a", "b"]]}[name]()
     if name == "id":
         return x
     if name in C.UNARY:
@@ -92,6 +111,27 @@ def cut(x, how):
 CUTS = ["persist", "persist-nofuse", "delayed", "delayed-noopt", "delayed-prefix", "delayed-nodivs", "legacy", "legacy-noopt"]
 
 
+def _claims_hold(c, whole):
+    """None when the collection's npartitions / divisions describe the partitions it computes; else what is wrong."""
+    try:
+        parts = [c.partitions[i].compute() for i in range(c.npartitions)]
+    except Exception as ex:
+        return f"partition of the claimed {c.npartitions} cannot be computed: {type(ex).__name__}: {str(ex)[:120]}"
+    if not all(isinstance(p, (pd.DataFrame, pd.Series)) for p in parts):
+        return f"a claimed partition is not a frame: {[type(p).__name__ for p in parts]}"
+    if len(c.divisions) != c.npartitions + 1:
+        return f"{len(c.divisions)} divisions for {c.npartitions} partitions"
+    got = pd.concat(parts)
+    if D.equiv(got, whole) is False:
+        return f"the claimed partitions together are not the head's rows: {D.describe(got)} vs {D.describe(whole)}"
+    d = c.divisions
+    if d[0] is not None:
+        for j, p in enumerate(parts):
+            if len(p) and (p.index.min() < d[j] or p.index.max() > d[j + 1] or (p.index.max() == d[j + 1] and j < len(parts) - 1)):
+                return f"partition {j} holds [{p.index.min()}, {p.index.max()}] under divisions {d[j]}..{d[j + 1]}"
+    return None
+
+
 def _meta_desc(q):
     from vf.props.C16 import describe_meta
 
@@ -105,11 +145,21 @@ def check_case(case, common, out):
     head, tail, npart, known = case
     tabs = C.tables(12)
     lay = C.Layout("np", npart, known)
+    tmp = tempfile.mkdtemp(prefix="verif_c17_") if head.startswith("pq_") else None
+    try:
+        _check_case(case, out, tabs, lay, tmp)
+    finally:
+        if tmp is not None:
+            shutil.rmtree(tmp, ignore_errors=True)
+
+
+def _check_case(case, out, tabs, lay, tmp):
+    head, tail, npart, known = case
     with warnings.catch_warnings():
         warnings.simplefilter("ignore")
         try:
             t = C.build_context(tabs, lay, lazy=True)
-            h = head_fn(head, t)
+            h = head_fn(head, t, tmp)
             if not hasattr(h, "expr"):
                 return
             uncut = tail_fn(tail, h, t)
@@ -120,6 +170,10 @@ def check_case(case, common, out):
         except Exception as ex:
             out["notes"][f"uncut pipeline refused: {head}->{tail}"] = f"{type(ex).__name__}: {str(ex)[:80]}"
             return
+        rebucket = head.startswith("pq_")
+        if rebucket and tail == "part0":
+            return  # "partition 0" means another set of rows once the source has been re-bucketed
+        ref_head = h.compute() if rebucket else None
         order_free = head in ("merge_df2", "shuffle_a", "gb_frame") or tail in ("merge_df2", "gb")
         index_free = head in ("reset_index", "merge_df2") or tail in ("merge_df2",)
         layout_free = head in ("sort_u", "set_index_u", "repart2", "repart5", "shuffle_a", "merge_df2", "concat_df3") or order_free
@@ -139,9 +193,16 @@ def check_case(case, common, out):
                 same_schema = _meta_desc(c) == _meta_desc(h)
                 if not same_schema:
                     viol(out, "C17.cut:schema-changes-at-the-boundary", sig, f"{_meta_desc(h)} -> {_meta_desc(c)}", replay)
-                if how not in ("delayed-nodivs",) and tuple(c.divisions) != tuple(h.divisions) and h.known_divisions and how != "legacy-noopt":
+                if rebucket:
+                    # the optimizer may re-bucket this source: partition count and divisions may change at an optimizing
+                    # cut, but what the re-imported collection CLAIMS must describe the partitions it really has
+                    why = _claims_hold(c, ref_head)
+                    if why:
+                        viol(out, "C17.cut:re-imported-collection-misdescribes-its-partitions", sig, why, replay)
+                        continue
+                elif how not in ("delayed-nodivs",) and tuple(c.divisions) != tuple(h.divisions) and h.known_divisions and how != "legacy-noopt":
                     viol(out, "C17.cut:divisions-change-at-the-boundary", sig, f"{str(h.divisions)[:100]} -> {str(c.divisions)[:100]}", replay)
-                if c.npartitions != h.npartitions:
+                if c.npartitions != h.npartitions and not rebucket:
                     viol(out, "C17.cut:npartitions-change-at-the-boundary", sig, f"{h.npartitions} -> {c.npartitions}", replay)
             except Exception as ex:
                 viol(out, "C17.cut:re-imported-collection-broken", sig, f"{type(ex).__name__}: {str(ex)[:200]}", replay)
@@ -158,7 +219,7 @@ def check_case(case, common, out):
                 viol(out, "C17.cut:result-differs", sig, f"uncut={D.describe(ref[1])} cut={D.describe(got)}", replay)
             if _meta_desc(q) != ref_meta:
                 viol(out, "C17.cut:schema-differs", sig, f"uncut {ref_meta} cut {_meta_desc(q)}", replay)
-            if how not in ("delayed-nodivs",) and not layout_free and tuple(q.divisions) != ref_divs and tail not in ("sort_u", "set_index_u", "repart3"):
+            if how not in ("delayed-nodivs",) and not layout_free and not rebucket and tuple(q.divisions) != ref_divs and tail not in ("sort_u", "set_index_u", "repart3"):
                 viol(out, "C17.cut:divisions-differ", sig, f"uncut {str(ref_divs)[:100]} cut {str(tuple(q.divisions))[:100]}", replay)
     if len(out["samples"]) < 2:
         out["samples"].append({"head": head, "tail": tail, "cuts": CUTS})
@@ -235,6 +296,61 @@ def array_import_case(case, common, out):
             out["notes"][f"array import not evaluated: {sig}"] = f"{type(ex).__name__}: {str(ex)[:100]}"
 
 
+INPLACE = {
+    "setitem-new-column": lambda x: x.__setitem__("z", x.u * 2 + 1),
+    "setitem-overwrite": lambda x: x.__setitem__("u", x.u + 100),
+    "delitem": lambda x: x.__delitem__("b"),
+    "pop": lambda x: x.pop("g"),
+    "columns-setter": lambda x: setattr(x, "columns", [str(c).upper() for c in x.columns]),
+    "index-setter": lambda x: setattr(x, "index", x.u + 1000),
+}
+
+
+def inplace_case(case, common, out):
+    """A collection object is cut, then edited IN PLACE (x[k] = v, del x[k], x.columns = ...), then cut again: the second
+    cut is a cut of the query as it is now - tail(cut(x)) == tail(x) - for every pair of cut kinds."""
+    import dask_expr as dx
+
+    first, second, edit, npart = case
+    tabs = C.tables(12)
+    sig = f"first cut={first}|in-place edit={edit}|second cut={second}|np={npart}"
+    replay = {"kind": "call", "module": "vf.props.C17", "func": "replay_inplace", "args": {"case": list(case)}}
+    with warnings.catch_warnings():
+        warnings.simplefilter("ignore")
+        x = dx.from_pandas(tabs["df"][["u", "a", "b", "f", "g"]], npartitions=npart)
+        try:
+            cut(x, first)
+            if first == "legacy":
+                x.optimize()
+            INPLACE[edit](x)
+            want, want_meta = x.compute(), _meta_desc(x)
+        except Exception as ex:
+            out["notes"][f"in-place pipeline refused: {sig}"] = f"{type(ex).__name__}: {str(ex)[:80]}"
+            return
+        bump(out, "C17.cut:second-cut-after-in-place-edit", sig, rule="first cut kind x in-place edit of the collection object x second cut kind")
+        try:
+            c = cut(x, second)
+            got = c.compute()
+        except Exception as ex:
+            viol(out, "C17.cut:cutting-fails", sig, f"{type(ex).__name__}: {str(ex)[:200]}", replay)
+            return
+        if _meta_desc(c) != want_meta:
+            viol(out, "C17.cut:schema-changes-at-the-boundary", sig, f"query now: {want_meta}; its cut: {_meta_desc(c)}", replay)
+        elif D.equiv(got, want) is False:
+            viol(out, "C17.cut:result-differs", sig, f"uncut={D.describe(want)} cut={D.describe(got)}", replay)
+
+
+def replay_inplace(case):
+    from vf.rt.pool import _init
+
+    _init()
+    out = {"counts": {}, "violations": [], "samples": [], "errors": [], "notes": {}}
+    inplace_case(tuple(case), {}, out)
+    for v in out["violations"]:
+        print(v["contract"], "|", v["signature"], "|", v["detail"][:300])
+    return bool(out["violations"])
+
+
 def replay_array_import(case):
     from vf.rt.pool import _init
 
@@ -264,6 +380,8 @@ def run(run):
     cases = [(h, t, n, k) for h in heads for t in tails for (n, k) in layouts]
     run_cases(run, "vf.props.C17", "check_case", cases, {}, chunk=4)
     run_cases(run, "vf.props.C17", "history_case", [(n, p) for n in (2, 4) for p in (None, "stage")], {}, chunk=1)
+    firsts = ["persist", "delayed", "legacy", "persist-nofuse"]
+    run_cases(run, "vf.props.C17", "inplace_case", [(a, b, e, n) for a in firsts for b in ["persist", "delayed", "legacy", "delayed-noopt"] for e in INPLACE for n in (1, 3)], {}, chunk=8)
     run_cases(run, "vf.props.C17", "array_import_case", [(3, False), (3, True), (1, False)], {}, chunk=1)
     from vf.contracts.registry import run_property_specs
 
